@@ -24,9 +24,13 @@ package sys
 //@   also-modifies lastCachePending
 //@ func NewSystem
 //@   ensures[C17.newsystem_forces_cachepending] result1 == nil ==> lastCachePending
+// Opening a location (loading its state, installing hooks) is assumed not to touch the location cache itself.
 //@ func (*System).OpenLocation
 //@   ghost-ensures checkExists && result1 == nil ==> checked == name
 //@   also-modifies checked
+//@   modifies allbut(F:sys.CachedLocation.|F:sys.CachedLocations.|MD:string:*sys.CachedLocation|MV:string:*sys.CachedLocation|ML:string:*sys.CachedLocation)
+//@ func (*Location).GetProp
+//@   modifies allbut(F:sys.CachedLocation.|F:sys.CachedLocations.|MD:string:*sys.CachedLocation|MV:string:*sys.CachedLocation|ML:string:*sys.CachedLocation)
 //@ func (*CachedLocations).expire
 //@   ensures[C17.expire_miss]   !old(has(cls.locs, name)) ==> result0 == nil && !has(cls.locs, name)
 //@   ensures[C17.expire_hit_or_evict] old(has(cls.locs, name)) ==> (has(cls.locs, name) && result0 == cls.locs[name].Location) || (!has(cls.locs, name) && result0 == nil)
